@@ -358,6 +358,18 @@ def gen_site_cases(ck, n):
                 edges.append(e)
         add({"op": "post", "edges": edges, "entry": 1},
             "post %s 1" % (",".join("%d>%d" % e for e in edges) or "-"))
+        # intervals(graph) on a rooted graph: spanning tree from node 1 plus random extra edges (back edges, self
+        # loops, irreducible entries); graph.nodes in a shuffled insertion order
+        nv = rng.randrange(1, 10)
+        edges = [(rng.randrange(1, i), i) for i in range(2, nv + 1)]
+        for _e in range(rng.randrange(0, nv + 2)):
+            e = (rng.randrange(1, nv + 1), rng.randrange(1, nv + 1))
+            if e not in edges:
+                edges.append(e)
+        rng.shuffle(edges)
+        order = list(range(1, nv + 1)); rng.shuffle(order)
+        add({"op": "intv", "edges": edges, "nodes": order, "entry": 1},
+            "intv %s %s 1" % (",".join("%d>%d" % e for e in edges) or "-", csv(order)))
     return cases, reqs
 
 
@@ -466,8 +478,10 @@ def _run(ck, pool, drv):
         "deterministic given deterministic inputs and is covered by the search only",
         "completeness of the site inventory rests on the AST scan gen/ordersites.py (flow-insensitive set-type "
         "inference inside androguard/decompiler)",
-        "intervals/derived_sequence (control_flow.py) iterate lists in rpo order and are not hash-iteration sites; that "
-        "the interval partition is a function of graph and numbering alone is not stated as a theorem",
+        "intervals (control_flow.py) is modelled for a first-level graph (Interval.__contains__ = membership) and proved "
+        "total with an order-free partition (intervals_spec, intervals_partition_order_irrelevant; correspondence "
+        "stream site-intv on rooted graphs); derived_sequence — the iteration over the collapsed interval graphs, whose "
+        "nodes are Interval objects with nested membership — is not modelled",
     ]
     ck.notes.append("corpus+T+sweep %.0fs; %d distinct-DEX files (%d duplicates skipped)" % (time.time() - t0, len(files), dups))
     if not salted:
